@@ -46,6 +46,20 @@ namespace embedded_pairing::lqibe {
         G1 q;
         q.multiply(qaffine, G1Affine::cofactor);
 
+        /*
+         * The hash can land on a point whose order divides the cofactor (for
+         * example, x = 0 gives a point of order 3). Clearing the cofactor then
+         * yields the identity, and for the identity every master key produces
+         * the same secret key. Carry on with try-and-increment from the next x
+         * until the result is a non-identity element of G1.
+         */
+        while (q.is_zero()) {
+            bls12_381::Fq x;
+            x.add(qaffine.x, bls12_381::Fq::one);
+            qaffine.try_and_increment(x, false);
+            q.multiply(qaffine, G1Affine::cofactor);
+        }
+
         id.q.from_projective(q);
     }
 
